@@ -11,9 +11,12 @@ VERIF = os.path.dirname(os.path.dirname(os.path.abspath(__file__)))
 LEAN_DIR = os.path.join(VERIF, "lean")
 DRIVER = os.path.join(LEAN_DIR, ".lake", "build", "bin", "driver")
 SPECDRIVER = os.path.join(LEAN_DIR, ".lake", "build", "bin", "specdriver")
-EVIDENCE = os.path.join(VERIF, "evidence")
-REPLAYS = os.path.join(EVIDENCE, "replays")
 REPO = os.environ.get("ACRA_REPO", "/repo")
+# Evidence committed under /verif/evidence must describe runs against /repo itself: a run against a scratch copy
+# (ACRA_REPO=…, used by tools/seeded.py and tools/regress.py) writes its evidence and replays elsewhere.
+EVIDENCE = os.path.join(VERIF, "evidence") if os.path.realpath(REPO) == os.path.realpath("/repo") \
+    else os.path.join(VERIF, "evidence", "tmp", "scratch")
+REPLAYS = os.path.join(EVIDENCE, "replays")
 
 if REPO not in sys.path:
     sys.path.insert(0, REPO)
